@@ -274,9 +274,10 @@ PER_PROP = {
             "`sacct --jobs=<ids>` returns accounting rows, among the conductor's own jobs, only for the ids asked "
             "about (hypothesis `Honest` of C16_squeue_answer_kept; the scripted sacct of the correspondence keeps "
             "it: C16_accounting_contract)"],
-    "C11": ["set iteration orders are abstracted as arbitrary permutations; proved order-independent for names, "
-            "workspaces, attached parameters and one instance's parent connections; the whole of stage() is compared "
-            "across interpreters with different hash seeds, not proved"],
+    "C11": ["set iteration orders are abstracted as arbitrary permutation oracles; the model's stage() is proved "
+            "independent of the oracle (C11_stage_order_independent); that the real iteration orders are "
+            "permutations and that nothing else in the real stage() depends on the hash seed is what the "
+            "multi-interpreter comparison samples; script generation by the adapters is compared, not modelled here"],
     "C18": ["dill / pickle / yaml fidelity is a library property checked by differential runs, not proved"],
     "C19": ["/bin/bash, the OS process model and the file system are sampled by end-to-end CLI runs"],
 }
